@@ -763,10 +763,25 @@ RepKey(e, st, kind) == "rep|" \o e.op \o "|" \o e.s \o "|" \o ToString(VerOf(st,
 RepObs(e) == IF Has(e.out, "exc") THEN [exc |-> TRUE]
              ELSE IF Has(e.out, "val") THEN [exc |-> FALSE, val |-> e.out.val]
              ELSE [exc |-> FALSE, st |-> [facts |-> StOfJson(e.out.st).facts, fl |-> StOfJson(e.out.st).fl]]
+\* ... except where two effects that may fire together write one fluent or add and delete one atom: PDDL
+\* gives such an application no meaning and the outcome is whatever order the effects are met in
+EffConflict(e, st) ==
+  LET o == OpEvent(e, st)
+      D == st[o.d].D
+  IN  IF ~HasAction(D, o.act) THEN TRUE
+      ELSE LET a == ActionNamed(D, o.act) IN
+           IF Len(o.args) # Len(a.params) THEN TRUE
+           ELSE LET env == EnvOfCall(a, o.args)
+                    u == st[o.u].u
+                    effs == FlattenEffs(a.eff)
+                    G == IF \A i \in DOMAIN effs : KnownEffect(effs[i]) THEN Groups(effs, env, u) ELSE {}
+                    F == {g \in G : GroupTruth(g, st[o.s].st, u, Eps, {}) # "F"}
+                IN  G = {} \/ ~Consistent(F) \/ ~NoDupGroups(effs)
 JRepeat(e, st, kind, r) ==
   LET k == RepKey(e, st, kind)
       obs == RepObs(e)
   IN  IF r.v # "" THEN r
+      ELSE IF kind = "apply" /\ EffConflict(e, st) THEN r
       ELSE IF k \in DOMAIN r.s
            THEN (IF r.s[k].obs = obs THEN r ELSE [r EXCEPT !.v = "Repeat:" \o kind])
            ELSE [r EXCEPT !.s = Put(r.s, k, [kind |-> "memo", obs |-> obs])]
